@@ -92,6 +92,10 @@ class MonFS(LocalFileSystem):
         # listing-type calls (ls, find) answer with the directory as of before the latest
         # mutation below it (newest entry not yet visible)
         self.stale_from, self.stale_left = stale_from, stale_count
+        # listing_order="creation": ls / find answer in the order the entries were created
+        # (legal: the order of a listing is unspecified; object stores and tmpfs behave like this)
+        self.listing_order = None
+        self.birth = {}
         # faults: {k: kind} with kind in OSError / FileNotFoundError / 'half' / 'stale' /
         #         'exists-flip' (reported-only kind)
         self.faults = dict(faults or {})
@@ -115,6 +119,16 @@ class MonFS(LocalFileSystem):
             elif isinstance(v, (list, tuple)) and v and isinstance(v[0], str):
                 out.extend(v[:4])
         return out
+
+    def _creation_sorted(self, result):
+        def key(x):
+            n_ = x["name"] if isinstance(x, dict) else str(x)
+            return self.birth.get(n_.rstrip("/"), 0)
+        if isinstance(result, dict):
+            return {k_: result[k_] for k_ in sorted(result, key=lambda z: self.birth.get(str(z).rstrip("/"), 0))}
+        if isinstance(result, list):
+            return sorted(result, key=key)
+        return result
 
     def _stale_view(self, name, d, result):
         """The listing of *d* without its most recently created entry (None if unknown)."""
@@ -225,6 +239,14 @@ def _wrap(name):
                     ev["outcome"] = "stale-listing"
                     return r2
             ev["outcome"] = ev["outcome"] or "ok"
+            if name in ("open", "makedirs", "mkdir", "touch") and paths and not (name == "open" and "w" not in str(mode)):
+                with self.mon_lock:
+                    self.birth.setdefault(paths[0].rstrip("/"), k)
+            if name in ("mv", "move") and len(paths) >= 2:
+                with self.mon_lock:
+                    self.birth[paths[1].rstrip("/")] = k
+            if self.listing_order == "creation" and name in ("ls", "find"):
+                r = self._creation_sorted(r)
             if name == "open" and "w" in str(mode) and self.rng is not None and self.delay_p > 0:
                 with self.mon_lock:
                     d_ = self.rng.random() * self.delay_max * 8 if self.rng.random() < 0.7 else 0.0
